@@ -17,7 +17,7 @@
      ObjOnce        a column / label object selected at exactly one position is found there - never ambiguous, never missing -
                     by the repaired AND the pinned mechanism (compiled and positional-textual statements)
      NameOnce       a string that is the result key (Result.keys()) of exactly one position, held by no other position,
-                    returns that position
+                    returns that position (pinned mechanism: except in by-name textual matching, finding class LooseAlias)
      LegacyClassified   wherever the pinned mechanism (fx = FALSE) differs from the repaired one, the case belongs to one of the
                     three finding classes (RawTextDupes, AltCollision, LooseAlias) - nothing else differs
    and prints one JSON case per state for the conformance replay (checks/c11.py).
@@ -365,7 +365,9 @@ ObjOnce(ev, cs, T) == ev.st \notin {"positional", "textpos"} \/
    \A i \in 1..Len(ev.items) : Cardinality({j \in 1..Len(ev.items) : ev.items[j].id = ev.items[i].id}) = 1 =>
         T.o[ev.items[i].id] = <<i - 1, i - 1>>
 NameOnce(ev, cs, T) ==
-   \A i \in 1..Len(ev.keys) : (Primary(ev, cs, ev.keys[i]) = {i} /\ Alt(ev, cs, ev.keys[i]) \subseteq {i}) => T.s[ev.keys[i]] = <<i - 1, i - 1>>
+   \A i \in 1..Len(ev.keys) : (Primary(ev, cs, ev.keys[i]) = {i} /\ Alt(ev, cs, ev.keys[i]) \subseteq {i}) =>
+        /\ T.s[ev.keys[i]][1] = i - 1
+        /\ (ev.st # "byname" => T.s[ev.keys[i]][2] = i - 1)       \* pinned by-name matching: finding class LooseAlias may raise here
 Differs(T) == (\E s \in DOMAIN T.s : T.s[s][1] # T.s[s][2]) \/ (\E id \in DOMAIN T.o : T.o[id][1] # T.o[id][2])
 LegacyClassified(ev, cs, T) == Differs(T) =>
    CASE FindingClass(ev, cs) = "RawTextDupes" -> DupKeys(ev)
